@@ -146,7 +146,7 @@ func equalArms(c *Ctx, rule string, totality bool) {
 					}
 				case *ssa.Call:
 					if bi, ok := v.Call.Value.(*ssa.Builtin); ok && bi.Name() == "len" {
-						r := RV{rv.F, assertRoot(v.Call.Args[0])}
+						r := assertRootR(e, st, RV{rv.F, v.Call.Args[0]})
 						if ex, ok := r.V.(*ssa.TypeAssert); ok {
 							if ex == ar.aAssert {
 								return "LA"
@@ -230,6 +230,26 @@ func equalArms(c *Ctx, rule string, totality bool) {
 	}
 }
 
+// assertRootR is assertRoot with resolution through inlined frames.
+func assertRootR(e *PPA, st *State, rv RV) RV {
+	for i := 0; i < 24; i++ {
+		rv = e.Resolve(st, rv)
+		switch x := rv.V.(type) {
+		case *ssa.UnOp:
+			rv = RV{rv.F, x.X}
+		case *ssa.FieldAddr:
+			rv = RV{rv.F, x.X}
+		case *ssa.Field:
+			rv = RV{rv.F, x.X}
+		case *ssa.Extract:
+			rv = RV{rv.F, x.Tuple}
+		default:
+			return rv
+		}
+	}
+	return rv
+}
+
 // assertRoot strips loads / field selections / tuple extraction down to a type assertion.
 func assertRoot(v ssa.Value) ssa.Value {
 	for i := 0; i < 16; i++ {
@@ -272,6 +292,16 @@ func sameFieldEq(v ssa.Value, aT *ssa.TypeAssert, bTs []*ssa.TypeAssert) bool {
 			}
 		}
 		return true
+	case *ssa.Call:
+		// library equality on the same field of both sides
+		switch calleeName(&x.Call) {
+		case "bytes.Equal", "slices.Equal", "strings.EqualFold":
+			if calleeName(&x.Call) == "strings.EqualFold" || len(x.Call.Args) != 2 {
+				return false
+			}
+			return sameFieldEq(&ssa.BinOp{Op: token.EQL, X: x.Call.Args[0], Y: x.Call.Args[1]}, aT, bTs)
+		}
+		return false
 	case *ssa.BinOp:
 		if x.Op != token.EQL {
 			return false
